@@ -69,6 +69,8 @@ def cmd_confirm(name):
     clean_ok = "test result: ok" in out_clean
     rc, out = sh(f"git apply {d}/patch.diff", cwd=WT)
     if rc != 0:
+        rc, out = sh(f"git apply -C1 --recount {d}/patch.diff", cwd=WT)
+    if rc != 0:
         print("patch does not apply:", out)
         m["confirmed"] = False
         m["confirm_note"] = "patch does not apply to current HEAD"
